@@ -80,9 +80,18 @@ def fam_always(N, variant, trigger, finite_len):
             "context": {"n": 0}, "on": {"P": {"actions": ["probe"]}}, "states": states}
 
 
+def _send_self_cb(a):
+    a["enqueue"].send_to(a["self"], "E")
+
+
 def fam_raise(N, variant, trigger, finite_len):
-    fan = variant  # 1 or 2 raises per step
+    fan = min(variant, 2)  # 1 or 2 raises per step
     raises = [{"type": "xstate.raise", "params": {"event": "E"}} for _ in range(fan)]
+    if variant == 3:
+        # the trigger is re-sent with sendTo addressed to the machine itself (XState's
+        # sendTo(({self}) => self, ...)), through the enqueueActions callback
+        raises = [{"type": "xstate.enqueueActions", "params": {"callback": _send_self_cb}}]
+
     if finite_len is None:
         acts = ["cnt"] + raises
     else:
@@ -131,6 +140,10 @@ def fam_ondone(N, variant, trigger, finite_len):
 def fam_invoke(N, variant, trigger, finite_len):
     s = {"invoke": {"src": "svc", "id": "i1",
                     "onDone": {"target": "s", "reenter": True, "actions": ["cnt"]}}}
+    if variant == 2:
+        # immediate retry: the service keeps failing and onError re-enters the invoking state
+        s = {"invoke": {"src": "svc_bad", "id": "i1",
+                        "onError": {"target": "s", "reenter": True, "actions": ["cnt"]}}}
     return {"id": "m", "initial": "s" if trigger == "start" else "idle", "maxIterations": N,
             "context": {"n": 0}, "on": {"P": {"actions": ["probe"]}},
             "states": {"idle": {"on": {"GO": "s"}}, "s": s}}
@@ -157,11 +170,15 @@ def fam_expand(N, variant, trigger, finite_len):
 
 FAMILIES = {
     "always": (fam_always, [1, 2, 3]),
-    "raise": (fam_raise, [1, 2]),
+    "raise": (fam_raise, [1, 2, 3]),
     "ondone": (fam_ondone, [1, 2, 3]),
-    "invoke": (fam_invoke, [1]),
+    "invoke": (fam_invoke, [1, 2]),
     "expand": (fam_expand, [1, 2, 3]),
 }
+
+
+def _svc_bad(i, c, e):
+    raise RuntimeError("service failed")
 
 
 def bound_for(family, N):
@@ -202,7 +219,7 @@ def run_one(res: Result, family, variant, N, trigger, engine, finite_len):
                  "inc": lambda i, c, e, a: c.__setitem__("n", c["n"] + 1),
                  "quiet": lambda i, c, e, a: None},
         guards={"below": lambda c, e: c["n"] < c["L"]},
-        services={"svc": lambda i, c, e: 1})
+        services={"svc": lambda i, c, e: 1, "svc_bad": _svc_bad})
     machine = create_machine(cfg, logic=logic)
     errors = [0]
     info = {}
@@ -365,11 +382,14 @@ def random_machines(res, spec, n, wd):
         N = rng.choice([3, 4, 6, 9, 14, 22, 35])
         P = gen.profile("effects", loops=True, maxit=N, p_always=0.4, p_raise=0.45, p_ondone=0.6,
                         ondone_forward=False, p_final=0.2, p_parallel=0.3, max_states=14, p_guard=0.3,
-                        p_effects=0.5, p_root_on=0.5)
+                        p_effects=0.5, p_root_on=0.5, p_invoke=0.25 if j % 2 else 0.0, p_invoke_fail=0.5)
         case = gen.gen_case(rng_for(spec["seed"], ID, ci, idx, "case"), P)
         nacts = 2 + max([len(t.actions) for t in case.trans] + [1])
         cap = 60 * (N + 3) * (N + 3) * nacts
-        for engine in ("sync", "async"):
+        # a service completion reaches the async engine from a task of its own: such a retry loop
+        # yields between rounds and is (like any polling loop) not a single macrostep, so machines
+        # with invocations are run on the sync engine only, where the service runs inline
+        for engine in (("sync",) if case.invokes else ("sync", "async")):
             wd.arm("random idx=%d %s" % (idx, engine))
             st = {"tx": 0, "step": -2, "max": 0}
 
@@ -417,7 +437,7 @@ def run_chunk(spec):
     res = Result()
     _CUR["res"] = res
     tier, ci = spec["tier"], spec["chunk"]
-    wd = Watchdog(res, 120.0)
+    wd = Watchdog(res, 400.0)
     Ns = [3, 5, 8, 13, 21, 40] if tier == "quick" else list(range(3, 41))
     cases = []
     for family, (_, variants) in FAMILIES.items():
